@@ -1405,15 +1405,21 @@ Stylesheet::processExtensionNamespace(
             StylesheetConstructionContext&  theConstructionContext,
             const XalanDOMString&           uri)
 {
-    XalanMemMgrAutoPtr<ExtensionNSHandler>  theGuard(
-                                                theConstructionContext.getMemoryManager(),
-                                                ExtensionNSHandler::create(
-                                                    uri,
-                                                    theConstructionContext.getMemoryManager()));
+    // XalanMap::insert() does nothing when the key is there already
+    // (the same namespace URI named twice in extension-element-prefixes),
+    // and the new handler would never be released.
+    if (m_extensionNamespaces.find(uri) == m_extensionNamespaces.end())
+    {
+        XalanMemMgrAutoPtr<ExtensionNSHandler>  theGuard(
+                                                    theConstructionContext.getMemoryManager(),
+                                                    ExtensionNSHandler::create(
+                                                        uri,
+                                                        theConstructionContext.getMemoryManager()));
 
-    m_extensionNamespaces.insert(uri, theGuard.get());
+        m_extensionNamespaces.insert(uri, theGuard.get());
 
-    theGuard.release();
+        theGuard.release();
+    }
 
     m_namespacesHandler.addExtensionNamespaceURI(theConstructionContext, uri);
 }
